@@ -14,6 +14,10 @@ def parseOp? (s : String) : Option Op :=
   | ["clone"] => some .clone
   | ["split"] => some .split
   | ["fill", n] => n.toNat?.map .fill
+  -- fills through the typed entry points: over k zero-sized elements / `random_bytes::<()>()` (no bytes, no draw), over k `u32` elements (4k bytes)
+  | ["zfill", n] => n.toNat?.map fun _ => .fill 0
+  | ["zrb"] => some (.fill 0)
+  | ["tfill", n] => n.toNat?.map fun k => .fill (4 * k)
   | _ => none
 
 def parseOps? (kv : KV) : Option (List Op) := (kv.strs "ops").mapM parseOp?
